@@ -631,6 +631,9 @@ func frame(rng *rand.Rand, items [][]byte, framing string, want int) []byte {
 	case "vbeyond":
 		last := items[len(items)-1]
 		return cat(enc(items[:len(items)-1]), varint(uint64(len(last)+1+rng.Intn(1000))), last)
+	case "vwrap":
+		last := items[len(items)-1]
+		return cat(enc(items[:len(items)-1]), varint(uint64(1<<32-1-rng.Intn(5))), last)
 	case "voverflow":
 		return cat(enc(items[:len(items)-1]), []byte{0xff, 0xff, 0xff, 0xff, 0xff, 0xff, 0xff, 0xff, 0xff, 0xff, 0x01}, items[len(items)-1])
 	case "vnonmin":
